@@ -349,7 +349,8 @@ theorem extend_sequence_frames_source (cfg : Cfg) (ops : List (Ext × Schema)) (
 
 /-! ### visibility -/
 
-/-- PARTIAL form of `visibility_hides`: a type the predicate hides is reported as `None` by `on_schema`'s dispatch,
+/-- SUBSUMED (kept for name stability) by the full `visibility_hides_type` / `visibility_hides_type_transform` (Props/C14_transform.lean).
+    PARTIAL form of `visibility_hides`: a type the predicate hides is reported as `None` by `on_schema`'s dispatch,
     for every kind of type, so `_replace_types_and_directives` deletes its registry entry (`lookup_regErase`);
     `healed_unregistered` then removes every field / argument / input field of that type. Missing for the full
     statement: the composition through `visitTypes` / `replaceTypes` / `healLoop` (tied by the correspondence and by
